@@ -14,6 +14,32 @@ CHECKS = {
          "only on concrete replays.",
     technique="symbolic execution of real code (CrossHair/z3), inductive step vs reference model",
     ref="DESIGN.md §2 C01"),
+ "C02": dict(
+    text="Bounded symbolic execution of the real Part._time_interpolator / beat_map / quarter_map / inverse maps on parts whose "
+         "shape (quarter-duration values, time signatures, first-measure kind, beat mode) is concrete per instance and whose "
+         "positions and query are symbolic ints in [0,10^7]; oracle = exact integer-arithmetic integral of the rate from the origin "
+         "the property states. Path trees are exhausted per shape.",
+    note="Floats are reals (relative tolerance 1e-9); float ties of the pickup comparison and the map end points for non-binary "
+         "rates are covered by concrete vectors on the real libraries. Models: interp1d, defaultdict, np constructors. Known finding "
+         "KF-C02-origin-not-first-point excludes parts whose first point is not 0.",
+    technique="symbolic execution of real code (CrossHair/z3) vs exact rational oracle",
+    ref="DESIGN.md §2 C02"),
+ "C12": dict(
+    text="Symbolic execution of the real conversion functions with symbolic ints (alter, octave, fifths, tempo, ticks unbounded or "
+         "widely bounded; table selectors enumerated by the solver): twelve-tone arithmetic, key bijection and rejection outside "
+         "-7..7, tempo/duration/interval/tuplet/clef tables, tick<->seconds algebra. Path trees exhausted.",
+    note="Frequency conversions (2**x, log2) are outside the encoding. ndarray branch of the tick conversion runs on concrete vectors "
+         "with the real numpy. Floats as reals; IEEE rounding of the tick kernel is decided by engine B (C06/C08).",
+    technique="symbolic execution of real code (CrossHair/z3) vs arithmetic oracles",
+    ref="DESIGN.md §2 C12"),
+ "C16": dict(
+    text="Symbolic execution of _transpose_note_inplace/_transpose_step/transpose_note over all 7 steps x alter -2..2 x octave 0..8 x "
+         "39 interval classes x both directions against diatonic arithmetic (incl. up-then-down identity), and of transpose() on a part "
+         "/ score with a tie chain, grace note and second voice with symbolic pitch, incl. argument-unchanged fingerprint. Path trees "
+         "exhausted for every instance.",
+    note="Results needing more than a double accidental and intervals above a seventh are outside the claim; one part shape.",
+    technique="symbolic execution of real code (CrossHair/z3) vs diatonic arithmetic oracle",
+    ref="DESIGN.md §2 C16"),
 }
 NOT_APPLICABLE = {
  "C18": "float32/transcendental codec chain (log2, 2**x, mean/std, symbolic/symbolic division) over ~600 lines of vectorised numpy: non-linear with transcendental terms, z3 answers unknown; no sound bounded encoding within reach (DESIGN.md §2 C18)",
